@@ -342,7 +342,15 @@ impl BlockWrite for RollingWriter {
                     (next_file_number, file)
                 } else {
                     let next_file_number = self.directory.files.inc(&self.file_number);
-                    let file = create_file(&self.directory.dir, &next_file_number)?;
+                    let file = match create_file(&self.directory.dir, &next_file_number) {
+                        Ok(file) => file,
+                        Err(io_err) => {
+                            // The file was not created: if it stayed tracked, the next write would
+                            // open whatever sits at that path (e.g. through a symlink) and use it.
+                            self.directory.files.forget(&next_file_number);
+                            return Err(io_err);
+                        }
+                    };
                     (next_file_number, file)
                 };
 
